@@ -42,6 +42,12 @@ class C10(Prop):
 
     def gen(self, rng, tier):
         n = 300 if tier == 'quick' else 4000
+        # evidence reported for the results of the forward model itself (tried counts as the forward task reports them)
+        for i in range(12 if tier == 'quick' else 150):
+            nst = rng.randint(3, 8)
+            yield {'kind': 'forward', 'az': [rng.uniform(0, 360) for _ in range(nst)], 'toa': [rng.uniform(5, 175) for _ in range(nst)],
+                   'pol': [rng.choice([-1, 1]) for _ in range(nst)], 'err': [rng.choice([0.001, 0.05, 0.3, 1.0]) for _ in range(nst)],
+                   'batches': [rng.choice([1, 4, 10, 50]) for _ in range(rng.randint(1, 3))], 'seed': rng.randrange(1 << 30)}
         for i in range(n):
             k = rng.random()
             if k < 0.25:
@@ -144,6 +150,31 @@ class C10(Prop):
             res['alg_dkl'] = float(ao['dkl']) if 'dkl' in ao else None
             res['alg_N'] = tot
             return res
+        if k == 'forward':
+            from MTfit import inversion as inv
+            from MTfit.algorithms import monte_carlo as mcs
+            st = {'Name': ['S%d' % i for i in range(len(case['az']))], 'Azimuth': np.matrix(case['az']).T,
+                  'TakeOffAngle': np.matrix(case['toa']).T}
+            data = {'PPolarity': {'Stations': st, 'Measured': np.matrix(case['pol']).T, 'Error': np.matrix(case['err']).T}}
+            a_pol, e_pol, ipp = inv.polarity_matrix(data)
+            rs = np.random.RandomState(case['seed'])
+            alg = mcs.IterationSample(number_samples=5, max_samples=10 ** 9)
+            alg.initialise()
+            allp, tried, reported = [], 0, 0
+            for nb in case['batches']:
+                m = rs.randn(6, nb)
+                m = m / np.sqrt((m * m).sum(axis=0))
+                ref = inv.ForwardTask(m.copy(), a_pol, e_pol, False, False, False, False, False, False, False, False, ipp, return_zero=True)()
+                lp = ref['ln_pdf']
+                allp.extend(float(v) for v in np.asarray(lp._ln_pdf if hasattr(lp, '_ln_pdf') else lp, dtype=float).flatten())
+                r = inv.ForwardTask(m.copy(), a_pol, e_pol, False, False, False, False, False, False, False, False, ipp)()
+                reported += int(r['n'])
+                tried += nb
+                alg.iterate(r)
+            ao, _t = alg.output(normalise=True, convert=False, discard=0)
+            return {'tried': tried, 'reported': reported, 'all_ln_p': allp,
+                    'lnbe': float(ao['ln_bayesian_evidence']) if 'ln_bayesian_evidence' in ao else None,
+                    'total_number_samples': int(ao.get('total_number_samples', -1))}
         raise ValueError(k)
 
     # ------------------------------------------------------------------ model
@@ -160,6 +191,9 @@ class C10(Prop):
         if k == 'dkl':
             return ['dkl %d %s %s %s' % (len(case['ps']), bits(case['dV']), ' '.join(bits(v) for v in case['ps']),
                                          ' '.join(bits(v) for v in case['qs']))]
+        if k == 'forward' and isinstance(impl, dict) and 'all_ln_p' in impl:
+            xs = [v for v in impl['all_ln_p'] if v != NEG_INF]
+            return ['lnbe %d %s %s' % (len(xs), bits(float(impl['tried'])), ' '.join(bits(v) for v in xs))] if xs else []
         if k == 'sample':
             xs = [v for b in case['batches'] for v in b]
             N = sum(len(b) for b in case['batches']) + case['extra_n']
@@ -172,6 +206,12 @@ class C10(Prop):
             return [('implementation raised %s: %s' % (impl['exc'], impl.get('msg')), impl)]
         k = case['kind']
         out = []
+        if k == 'forward':
+            if replies and impl['lnbe'] is not None:
+                m1 = reply_floats(replies[0])[0]
+                if not close(m1, impl['lnbe'], atol=1e-9):
+                    out.append(('evidence of forward-model results: model %r (over %d tried), implementation %r' % (m1, impl['tried'], impl['lnbe']), None))
+            return out
         if k == 'sample':
             m1 = reply_floats(replies[0])[0]
             m2 = reply_floats(replies[1])[0]
@@ -255,6 +295,17 @@ class C10(Prop):
                         ref = float('inf') if b_ == NEG_INF else ref + math.exp(a_ - lp) * ((a_ - lp) - (b_ - lq)) * dV
                 if not (g == ref or close(g, ref, atol=1e-8, rtol=1e-8)):
                     out.append(('dkl-value', 'dkl = %r, sum over the support of p of P ln(P/Q) dV = %r' % (g, ref), None))
+        elif k == 'forward':
+            xs = impl['all_ln_p']
+            if impl['reported'] != impl['tried']:
+                out.append(('forward-n', 'forward tasks on %d sources report %d tried' % (impl['tried'], impl['reported']), None))
+            if any(v != NEG_INF for v in xs):
+                ref = lse(xs) - math.log(impl['tried'])
+                if impl['lnbe'] is None or not close(ref, impl['lnbe'], atol=1e-9):
+                    out.append(('forward-lnbe', 'evidence reported for forward-model results %r, log mean likelihood over all %d tried sources %r'
+                                % (impl['lnbe'], impl['tried'], ref), None))
+                if impl['total_number_samples'] != impl['tried']:
+                    out.append(('forward-n', 'output reports %d tried sources, %d were tried' % (impl['total_number_samples'], impl['tried']), None))
         elif k == 'sample':
             xs = [v for b in case['batches'] for v in b]
             ref = lse(xs) - math.log(impl['N'])
@@ -281,10 +332,15 @@ class C10(Prop):
         k = case['kind']
         if k == 'modelprob':
             return True
+        if k == 'forward':
+            return isinstance(impl, dict) and sum(1 for v in impl.get('all_ln_p', []) if v != NEG_INF) >= 2
         xs = case.get('xs') or case.get('ps') or [v for b in case.get('batches', []) for v in b]
         return sum(1 for v in xs if v != NEG_INF) >= 2
 
     def branch(self, case, impl):
+        if case['kind'] == 'forward' and isinstance(impl, dict) and 'all_ln_p' in impl:
+            z = sum(1 for v in impl['all_ln_p'] if v == NEG_INF)
+            return 'forward/%s' % ('all-zero' if z == len(impl['all_ln_p']) else 'some-zero' if z else 'no-zero')
         return case['kind']
 
 
